@@ -74,6 +74,8 @@ pub struct InTuple {
     pub ids_is_server_pk: bool,
     pub tape: usize,
     pub devs: usize,
+    /// member of the length-boundary family
+    pub boundary: bool,
 }
 impl InTuple {
     pub fn describe(&self) -> serde_json::Value {
@@ -102,6 +104,7 @@ pub fn input_tuples(tier: Tier) -> Vec<InTuple> {
         ids_is_server_pk: ix[3] == spk_idx,
         tape: ix[5],
         devs,
+        boundary: false,
     };
     let mut out: Vec<InTuple> = al::deviations(&sizes, k).iter().map(|ix| mk(ix, ix.iter().filter(|x| **x != 0).count())).collect();
     if tier.thorough() {
@@ -110,7 +113,26 @@ pub fn input_tuples(tier: Tier) -> Vec<InTuple> {
         let bid = vec![idus[1].clone(), idus[4].clone(), idus[5].clone(), idus[6].clone()];
         let bctx = vec![ctxs[1].clone(), ctxs[3].clone(), ctxs[4].clone(), ctxs[5].clone()];
         for ix in al::product(&[4, 4, 4, 4]) {
-            out.push(InTuple { p: Params { pw: bpw[ix[0]].clone(), cid: al::CID_DEFAULT.to_vec(), idu: bid[ix[1]].clone(), ids: bid[ix[2]].clone(), ctx: bctx[ix[3]].clone(), ksf: None }, ids_is_server_pk: false, tape: 0, devs: 4 });
+            out.push(InTuple { p: Params { pw: bpw[ix[0]].clone(), cid: al::CID_DEFAULT.to_vec(), idu: bid[ix[1]].clone(), ids: bid[ix[2]].clone(), ctx: bctx[ix[3]].clone(), ksf: None }, ids_is_server_pk: false, tape: 0, devs: 4, boundary: false });
+        }
+    }
+    // hash-block and length-prefix boundary lengths, one slot at a time (both tiers): a defect conditional on an
+    // input length near 32/48/64/128 bytes (digest and block sizes of SHA-256/384/512) would otherwise be missed
+    let d = mk(&[0, 0, 0, 0, 0, 0], 0);
+    for n in [15usize, 16, 17, 31, 32, 33, 47, 48, 49, 55, 56, 63, 64, 65, 66, 111, 112, 119, 120, 127, 128, 129, 1000] {
+        let v = |c: u8| (0..n).map(|i| c.wrapping_add(i as u8)).collect::<Vec<u8>>();
+        for slot in 0..5 {
+            let mut t = d.clone();
+            t.devs = 1;
+            t.boundary = true;
+            match slot {
+                0 => t.p.pw = v(b'p'),
+                1 => t.p.cid = v(b'c'),
+                2 => t.p.idu = Some(v(b'u')),
+                3 => t.p.ids = Some(v(b's')),
+                _ => t.p.ctx = Some(v(b'x')),
+            }
+            out.push(t);
         }
     }
     // dedupe (the product overlaps the deviation set), keeping first occurrences (simplest first)
